@@ -41,7 +41,12 @@ pub struct Shared {
     pub write_polls: usize,
 }
 
+/// A reader that keeps polling after end of stream / a writer polled over and over without progress is a
+/// busy loop (the future never completes although it is never Pending): reported as a panic of the case.
+pub const SPIN_LIMIT: usize = 20_000;
+
 pub struct ScriptStream {
+    pub eof_polls: usize,
     pub r: VecDeque<REv>,
     pub w: VecDeque<WEv>,
     pub sh: Arc<Mutex<Shared>>,
@@ -51,7 +56,7 @@ pub struct ScriptStream {
 
 impl ScriptStream {
     pub fn new(r: VecDeque<REv>, w: VecDeque<WEv>, sh: Arc<Mutex<Shared>>) -> ScriptStream {
-        ScriptStream { r, w, sh, rsleep: None, wsleep: None }
+        ScriptStream { eof_polls: 0, r, w, sh, rsleep: None, wsleep: None }
     }
 }
 
@@ -71,8 +76,20 @@ impl AsyncRead for ScriptStream {
             }
         }
         match me.r.front_mut() {
-            None | Some(REv::Eof) => Poll::Ready(Ok(())),
-            Some(REv::Err) => Poll::Ready(Err(std::io::Error::new(std::io::ErrorKind::ConnectionReset, "reset"))),
+            None | Some(REv::Eof) => {
+                me.eof_polls += 1;
+                if me.eof_polls > SPIN_LIMIT {
+                    panic!("busy loop: the stream was polled {} times after it had reported end of file", me.eof_polls);
+                }
+                Poll::Ready(Ok(()))
+            }
+            Some(REv::Err) => {
+                me.eof_polls += 1;
+                if me.eof_polls > SPIN_LIMIT {
+                    panic!("busy loop: the stream was polled {} times after it had reported an i/o error", me.eof_polls);
+                }
+                Poll::Ready(Err(std::io::Error::new(std::io::ErrorKind::ConnectionReset, "reset")))
+            }
             Some(REv::Pending) => {
                 me.r.pop_front();
                 cx.waker().wake_by_ref();
